@@ -6,6 +6,8 @@ package corpus
 
 import (
 	"bytes"
+	"compress/gzip"
+	"encoding/binary"
 	"io/fs"
 	"sort"
 	"strings"
@@ -14,6 +16,7 @@ import (
 	hbdata "github.com/go-text/typesetting-utils/harfbuzz"
 	otdata "github.com/go-text/typesetting-utils/opentype"
 	"github.com/go-text/typesetting/font"
+	"verifsim/faultdisk"
 )
 
 var (
@@ -56,6 +59,8 @@ func Bytes(name string) []byte {
 		err error
 	)
 	switch {
+	case strings.HasPrefix(name, "synth:"):
+		return synth(name)
 	case strings.HasPrefix(name, "ot:"):
 		b, err = otdata.Files.ReadFile(name[3:])
 	case strings.HasPrefix(name, "hb:"):
@@ -118,3 +123,74 @@ var (
 		"ot:common/Go-Mono-Bold-Italic.ttf", "ot:common/LiberationMono-Italic.ttf", "ot:common/DejaVuSansMono.ttf",
 	}
 )
+
+// Synthetic members of the corpus: valid variants of corpus fonts that reach code paths no
+// shipped file reaches. "synth:svg-gzip.ttf" is toys/chromacheck-svg.ttf with its SVG documents
+// gzip-compressed (allowed by the OpenType specification; the library inflates them on access).
+var Synthetic = []string{"synth:svg-gzip.ttf"}
+
+var synthCache = map[string][]byte{}
+
+func synth(name string) []byte {
+	if b, ok := synthCache[name]; ok {
+		return append([]byte(nil), b...)
+	}
+	var out []byte
+	switch name {
+	case "synth:svg-gzip.ttf":
+		out = svgGzip(Bytes("ot:toys/chromacheck-svg.ttf"))
+	default:
+		panic("corpus: unknown synthetic font " + name)
+	}
+	synthCache[name] = out
+	return append([]byte(nil), out...)
+}
+
+func svgGzip(img []byte) []byte {
+	_, tabs := faultdisk.ParseDirectory(img)
+	for _, t := range tabs {
+		if t.Tag != "SVG " || t.Offset+t.Length > len(img) || t.Length < 12 {
+			continue
+		}
+		tb := img[t.Offset : t.Offset+t.Length]
+		lo := int(binary.BigEndian.Uint32(tb[2:]))
+		if lo+2 > len(tb) {
+			break
+		}
+		n := int(binary.BigEndian.Uint16(tb[lo:]))
+		type rec struct {
+			first, last uint16
+			doc         []byte
+		}
+		var recs []rec
+		for i := 0; i < n; i++ {
+			r := tb[lo+2+12*i:]
+			off, ln := int(binary.BigEndian.Uint32(r[4:])), int(binary.BigEndian.Uint32(r[8:]))
+			if lo+off+ln > len(tb) {
+				panic("corpus: chromacheck-svg.ttf has an unexpected SVG table")
+			}
+			var z bytes.Buffer
+			zw := gzip.NewWriter(&z)
+			zw.Write(tb[lo+off : lo+off+ln])
+			zw.Close()
+			recs = append(recs, rec{binary.BigEndian.Uint16(r[0:]), binary.BigEndian.Uint16(r[2:]), z.Bytes()})
+		}
+		nt := make([]byte, 10+2+12*len(recs))
+		binary.BigEndian.PutUint32(nt[2:], 10)
+		binary.BigEndian.PutUint16(nt[10:], uint16(len(recs)))
+		for i, r := range recs {
+			e := nt[12+12*i:]
+			binary.BigEndian.PutUint16(e[0:], r.first)
+			binary.BigEndian.PutUint16(e[2:], r.last)
+			binary.BigEndian.PutUint32(e[4:], uint32(len(nt)-10))
+			binary.BigEndian.PutUint32(e[8:], uint32(len(r.doc)))
+			nt = append(nt, r.doc...)
+		}
+		out, ok := faultdisk.Graft(img, "SVG ", nt)
+		if !ok {
+			break
+		}
+		return out
+	}
+	panic("corpus: cannot build synth:svg-gzip.ttf")
+}
